@@ -91,7 +91,11 @@ class P(Prop):
                 for i in range(ns):
                     r = rated if (equal or i == 0) else Fraction(rng.choice([1, 2, 3, 4, 6])) * rated / 2
                     stages.append({"rated": r, "curve": gen_curve(rng, lo=48)})
-                out.append({"stream": "serial", "rated": rated, "stages": stages, "qs": queries(rng, rated, 6, table=False),
+                if not equal and rng.random() < 0.5:        # a later stage smaller than the first
+                    stages[rng.randrange(1, ns)]["rated"] = rated / 2
+                # the rating of the chain may be left out: it is then the first stage's (which is what the stream hands over anyway)
+                gq = [[0, rng.random() < 0.5, Fraction(rng.randint(1, 10), 10) * rated], [1, rng.random() < 0.5, -Fraction(rng.randint(1, 10), 10) * rated]]
+                out.append({"stream": "serial", "rated": rated, "rated_given": rng.random() < 0.5, "stages": stages, "qs": queries(rng, rated, 6, table=False) + gq,
                             "loads": [Fraction(k, 10) for k in rng.sample(range(0, 11), 4)] + [Fraction(rng.randint(0, 40), 40) for _ in range(3)]})
             elif u < 0.75:
                 out.append({"stream": "machine", "role": rng.choice(["SOURCE", "CONSUMER", "PTI_PTO"]), "rated": rated,
@@ -134,6 +138,8 @@ class P(Prop):
         if st == "serial":
             comps = [BasicComponent(TypeComponent.TRANSFORMER, TypePower.POWER_TRANSMISSION, f"s{i}", float(s["rated"]), np_curve(s["curve"]))
                      for i, s in enumerate(case["stages"])]
+            if not case.get("rated_given", True):
+                return SerialSystem(TypeComponent.PROPULSION_DRIVE, TypePower.POWER_CONSUMER, "ser", comps)
             return SerialSystem(TypeComponent.PROPULSION_DRIVE, TypePower.POWER_CONSUMER, "ser", comps, rated_power=r)
         if st == "machine":
             return ElectricMachine(type_=TypeComponent.SYNCHRONOUS_MACHINE, name="m", rated_power=r, rated_speed=1000.0,
@@ -186,6 +192,9 @@ class P(Prop):
             if case["stream"] == "serial":
                 out["stage_eff"] = [[float(c.get_efficiency_from_load_percentage(float(l) * float(case["stages"][0]["rated"]) / float(s["rated"])))
                                      for c, s in zip(comp.components, case["stages"])] for l in case["loads"]]
+                # stage efficiencies at the stages' own loads for each query (load = |x| / rating of the first stage)
+                out["q_stage_eff"] = [[float(c.get_efficiency_from_load_percentage(abs(float(q[2])) / float(s["rated"])))
+                                       for c, s in zip(comp.components, case["stages"])] for q in case["qs"]]
             # series == element by element
             qs = case["qs"]
             if qs:
@@ -300,6 +309,15 @@ class P(Prop):
             if abs(supply) < abs(delivery) - slack:
                 return f"energy created: supply side {supply} kW, delivery side {delivery} kW"
         if st == "serial":
+            # delivered / supplied power at a tabulated load of the chain = product of the stage efficiencies at their own loads
+            for (d, sc, x), a, se in zip(case["qs"], obs["ans"], obs.get("q_stage_eff") or []):
+                x = float(x)
+                l10 = abs(x) / R * 10
+                if x != 0 and (d == 0) == (x > 0) and abs(l10 - round(l10)) < 1e-12 and l10 <= 10:
+                    prod = min(1.0, max(0.01, float(np.prod(se))))
+                    if abs(a * prod - x) > 1e-9 * max(1.0, abs(x)):
+                        return (f"serial system delivering {x} kW (load {abs(x) / R} of the first stage's rating): supply side {a} kW, "
+                                f"delivery / product of the stage efficiencies at their own loads = {x / prod}")
             for l, e, se in zip(case["loads"], obs["eff"], obs["stage_eff"]):
                 if l * 10 == int(l * 10):
                     prod = min(1.0, max(0.01, float(np.prod(se))))     # the system's own efficiency is limited to [1 %, 100 %] too
@@ -380,6 +398,8 @@ class P(Prop):
             t.append("roundtrip<=0.1%" if m <= 0.001 else "roundtrip<=0.5%" if m <= 0.005 else "roundtrip>0.5%")
         if case["stream"] == "serial":
             t.append("equal-ratings" if len({s["rated"] for s in case["stages"]}) == 1 else "different-ratings")
+            if not case.get("rated_given", True):
+                t.append("chain-rating-left-out")
         if case["stream"] == "machine":
             t.append("role=" + case["role"])
         if case["stream"] == "storage":
